@@ -126,7 +126,11 @@ func tableBytes(c gen.Cfg) float64 {
 
 func boundaryCfg(r *rand.Rand, typ string) gen.Cfg {
 	c := gen.SmallCfg(r, typ, gen.Opts{})
-	switch r.Intn(10) {
+	switch r.Intn(11) {
+	case 10:
+		// only runs if the library accepts it (the wrapped parser cannot
+		// make room in a full buffer then)
+		c.ShrinkSize = c.BufferSize
 	case 0:
 		c.ShrinkSize = c.BufferSize - 1
 	case 1: // BufferSize smaller than the hash input length
